@@ -8,7 +8,7 @@ cd "$root"
 prop="$1"; mode="${2:-quick}"
 mkdir -p .work bin
 exe=".work/check-$$"
-trap 'rm -f "$exe" ".work/alt-$$.mod" ".work/alt-$$.sum" ".work/check-race-$$" ".work/check-shim-$$"; rm -rf ".work/ov-$$"' EXIT
+trap 'rm -f "$exe" ".work/alt-$$.mod" ".work/alt-$$.sum" ".work/check-race-$$" ".work/check-shim-$$" ".work/check-clk-$$"; rm -rf ".work/ov-$$" ".work/ovc-$$"' EXIT
 modflag=""
 if [ -n "${VERIF_REPO:-}" ] && [ "$VERIF_REPO" != "/repo" ]; then
   # development aid only (seeded-defect evaluation in a scratch worktree): the registered commands never set VERIF_REPO
@@ -31,6 +31,16 @@ if [ "$prop" = "C17" ]; then
   fi
   rm -f ".work/shimbuild-$$.log"
 fi
+case "$prop" in C04|C05|C18)
+  # clocked twin: package time replaced by verifclock (go build -overlay, /repo untouched) in the non-test files under revocation/,
+  # so that the instant the library reads from the clock is an environment answer; regenerated from the current tree on every run
+  repo_dir="${VERIF_REPO:-/repo}"
+  nclk=$(python3 tools/mk_clock_overlay.py "$repo_dir" ".work/ovc-$$" 2>/dev/null || echo 0)
+  if [ "$nclk" -ge 1 ] && go build $modflag -tags verifclock -overlay ".work/ovc-$$/overlay.json" -o ".work/check-clk-$$" ./cmd/check 2> ".work/clkbuild-$$.log"; then
+    export VERIF_CLOCK_BIN="$root/.work/check-clk-$$" VERIF_CLOCK_FILES="$nclk"
+  fi
+  rm -f ".work/clkbuild-$$.log" ;;
+esac
 if [ "$prop" = "C17" ] && [ "$mode" != "replay" ]; then
   # the free-running race pass needs the -race twin, rebuilt from the current tree
   # (its own file per invocation: concurrent runs against other trees must not share it)
@@ -41,6 +51,8 @@ case "$mode" in
   replay)
     if [ "$prop" = "C17" ] && grep -q '"scenario": "C17S-' "$3" 2>/dev/null && [ -n "${VERIF_SHIM_BIN:-}" ]; then
       "$VERIF_SHIM_BIN" -prop C17S -replay "$3" | sed 's/property=C17S/property=C17/'; rc=${PIPESTATUS[0]}
+    elif grep -q "\"scenario\": \"${prop}T-" "$3" 2>/dev/null && [ -n "${VERIF_CLOCK_BIN:-}" ]; then
+      "$VERIF_CLOCK_BIN" -prop "${prop}T" -replay "$3" | sed "s/property=${prop}T/property=${prop}/"; rc=${PIPESTATUS[0]}
     else
       "$exe" -prop "$prop" -replay "$3"; rc=$?
     fi ;;
